@@ -349,3 +349,277 @@ Proof.
   destruct (lookup_result_cache s1 TEp (c_epname cl)) as [_ Hc2].
   destruct (lookup s1 TEp (c_epname cl)) as [[s2 rq2] r2]. cbn [fst] in *. congruence.
 Qed.
+
+(** ---- C19 over histories: an entry looked up within the period survives the next sweep, whatever happens in between ---- *)
+Definition quiet_for (t : rtype) (n : string) (x : op) : bool :=
+  match x with
+  | OSweep => false
+  | OBackdate t' n' _ => negb (rtype_eqb t' t && String.eqb n' n)
+  | _ => true
+  end.
+Definition ticks (h : list op) : N := fold_left (fun acc x => match x with OTick d => acc + d | _ => acc end)%N h 0%N.
+
+Lemma touch_meta_get s t n t' k :
+  aget k (tget t' (s_meta (touch s t n))) =
+  if rtype_eqb t' t && String.eqb k n then match aget n (tget t (s_meta s)) with Some _ => Some (s_now s) | None => None end
+  else aget k (tget t' (s_meta s)).
+Proof.
+  unfold touch. destruct (aget n (tget t (s_meta s))) eqn:E; cbn [s_meta].
+  - rewrite tget_tset. destruct (rtype_eqb t' t) eqn:Et; cbn [andb]; [|reflexivity].
+    apply rtype_eqb_eq in Et. subst t'. rewrite aget_aset. destruct (String.eqb k n); reflexivity.
+  - destruct (rtype_eqb t' t) eqn:Et; cbn [andb]; [|reflexivity]. apply rtype_eqb_eq in Et. subst t'.
+    destruct (String.eqb_spec k n) as [->|Hne]; [exact E|reflexivity].
+Qed.
+
+(** lower bound on the recorded access time of (t, n) and on the clock *)
+Definition fresh (t : rtype) (n : string) (T0 : N) (s : state) : Prop :=
+  (T0 <= s_now s)%N /\ exists tm, aget n (tget t (s_meta s)) = Some tm /\ (T0 <= tm)%N.
+
+Lemma fresh_same t n T0 s s' : s_meta s' = s_meta s -> s_now s' = s_now s -> fresh t n T0 s -> fresh t n T0 s'.
+Proof. intros E1 E2 [A (tm & B & C)]. split; [rewrite E2; exact A|]. exists tm. rewrite E1. split; assumption. Qed.
+
+Lemma fresh_touch t n T0 s t' n' : fresh t n T0 s -> fresh t n T0 (touch s t' n').
+Proof.
+  intros [A (tm & B & C)]. split; [unfold touch; destruct (aget n' (tget t' (s_meta s))); exact A|].
+  rewrite touch_meta_get. destruct (rtype_eqb t t' && String.eqb n n') eqn:E.
+  - apply andb_true_iff in E. destruct E as [E1 E2]. apply rtype_eqb_eq in E1. apply String.eqb_eq in E2. subst t' n'.
+    rewrite B. exists (s_now s). split; [reflexivity|exact A].
+  - exists tm. split; assumption.
+Qed.
+
+Lemma fresh_lookup t n T0 s t' n' : fresh t n T0 s -> fresh t n T0 (fst (fst (lookup s t' n'))).
+Proof.
+  intros F. unfold lookup. pose proof (fresh_touch t n T0 s t' n' F) as Ft.
+  destruct (aget n' (tget t' (s_cache (touch s t' n')))); [exact Ft|].
+  destruct (watch (touch s t' n') t' n' false) as [s1 rq] eqn:Ew. cbn [fst].
+  revert Ft. apply fresh_same; change s1 with (fst (s1, rq)); rewrite <- Ew; reflexivity.
+Qed.
+
+Lemma fold_meta_keeps (nc : list (string * cval)) now : forall (om : list (string * N)) k v,
+  aget k om = Some v ->
+  aget k (fold_left (fun acc kv => if amem (fst kv) acc then acc else aset (fst kv) now acc) nc om) = Some v.
+Proof.
+  induction nc as [|kv nc IH]; intros om k v H; cbn [fold_left]; [exact H|]. apply IH.
+  destruct (amem (fst kv) om) eqn:E; [exact H|]. rewrite aget_aset. destruct (String.eqb_spec k (fst kv)) as [->|Hne]; [|exact H].
+  unfold amem in E. rewrite H in E. discriminate.
+Qed.
+
+Lemma fresh_apply_update t n T0 s t' up : fresh t n T0 s -> fresh t n T0 (apply_update s t' up).
+Proof.
+  intros [A (tm & B & C)]. split; [exact A|]. exists tm. split; [|exact C].
+  unfold apply_update. cbn [s_meta]. rewrite tget_tset. destruct (rtype_eqb t t') eqn:E; [|exact B].
+  apply rtype_eqb_eq in E. subst t'. apply fold_meta_keeps. exact B.
+Qed.
+
+Lemma fresh_step c o t n T0 s x : quiet_for t n x = true -> fresh t n T0 s ->
+  fresh t n T0 (fst (step c o s x)) /\ s_now (fst (step c o s x)) = (s_now s + match x with OTick d => d | _ => 0 end)%N.
+Proof.
+  intros Hq F. destruct x as [t' n'|t' n'|t' ns|d| |v nn p| |t'|a| |d|t' n' d| ]; try discriminate; cbn [step].
+  - destruct (watch s t' n' false) as [s1 rq] eqn:E. cbn [fst]. rewrite N.add_0_r.
+    assert (Em : s_meta s1 = s_meta s /\ s_now s1 = s_now s) by (change s1 with (fst (s1, rq)); rewrite <- E; split; reflexivity).
+    split; [revert F; apply fresh_same; tauto|tauto].
+  - pose proof (fresh_lookup t n T0 s t' n' F) as H.
+    assert (En : s_now (fst (fst (lookup s t' n'))) = s_now s).
+    { unfold lookup. assert (Et : s_now (touch s t' n') = s_now s) by (unfold touch; destruct (aget n' (tget t' (s_meta s))); reflexivity).
+      destruct (aget n' (tget t' (s_cache (touch s t' n')))); [exact Et|]. destruct (watch (touch s t' n') t' n' false) as [s1 rq] eqn:Ew.
+      cbn [fst]. change s1 with (fst (s1, rq)). rewrite <- Ew. exact Et. }
+    destruct (lookup s t' n') as [[s1 rq] r]. cbn [fst] in *. rewrite N.add_0_r. split; assumption.
+  - assert (G : forall ns0 s0 rq r, fresh t n T0 s0 ->
+        let res := fold_left (fun acc n => let '(sa, rqa, _) := acc in let '(sb, rqb, rb) := lookup sa t' n in (sb, (rqa ++ rqb)%list, rb)) ns0 (s0, rq, r) in
+        fresh t n T0 (fst (fst res)) /\ s_now (fst (fst res)) = s_now s0).
+    { induction ns0 as [|n0 ns0 IH]; intros s0 rq r F0; cbn [fold_left]; [split; [exact F0|reflexivity]|].
+      pose proof (fresh_lookup t n T0 s0 t' n0 F0) as H.
+      assert (En : s_now (fst (fst (lookup s0 t' n0))) = s_now s0).
+      { unfold lookup. assert (Et : s_now (touch s0 t' n0) = s_now s0) by (unfold touch; destruct (aget n0 (tget t' (s_meta s0))); reflexivity).
+        destruct (aget n0 (tget t' (s_cache (touch s0 t' n0)))); [exact Et|]. destruct (watch (touch s0 t' n0) t' n0 false) as [s1 rq1] eqn:Ew.
+        cbn [fst]. change s1 with (fst (s1, rq1)). rewrite <- Ew. exact Et. }
+      destruct (lookup s0 t' n0) as [[sb rqb] rb]. cbn [fst] in *. destruct (IH sb (rq ++ rqb)%list rb H) as [A B]. split; [exact A|congruence]. }
+    specialize (G ns s [] LMiss F). cbn zeta in G. destruct (fold_left _ ns (s, [], LMiss)) as [[s1 rq] r]. cbn [fst] in *. rewrite N.add_0_r. exact G.
+  - assert (L : forall s0 tt nn0, fresh t n T0 s0 -> fresh t n T0 (fst (fst (lookup s0 tt nn0))) /\ s_now (fst (fst (lookup s0 tt nn0))) = s_now s0).
+    { intros s0 tt nn0 F0. split; [apply fresh_lookup; exact F0|].
+      unfold lookup. assert (Et : s_now (touch s0 tt nn0) = s_now s0) by (unfold touch; destruct (aget nn0 (tget tt (s_meta s0))); reflexivity).
+      destruct (aget nn0 (tget tt (s_cache (touch s0 tt nn0)))); [exact Et|]. destruct (watch (touch s0 tt nn0) tt nn0 false) as [s1 rq1] eqn:Ew.
+      cbn [fst]. change s1 with (fst (s1, rq1)). rewrite <- Ew. exact Et. }
+    destruct (L s TCl d F) as [H1 E1]. destruct (lookup s TCl d) as [[s1 rq1] r1]. cbn [fst] in *. rewrite N.add_0_r.
+    destruct r1 as [[l|r0|cl|e|]| | | | | |r0| ]; try (split; assumption).
+    destruct (c_inline cl); [split; assumption|].
+    destruct (L s1 TEp (c_epname cl) H1) as [H2 E2]. destruct (lookup s1 TEp (c_epname cl)) as [[s2 rq2] r2]. cbn [fst] in *. split; [exact H2|congruence].
+  - rewrite N.add_0_r. split; [exact F|reflexivity].
+  - rewrite N.add_0_r. unfold handle_resp. destruct (s_closed s); [split; [exact F|reflexivity]|].
+    destruct (tget (payload_type p) (s_watched s)); [|split; [exact F|reflexivity]].
+    destruct (decode_payload o p) as [[m|tb]|]; cbn [fst].
+    + split; [|reflexivity]. apply fresh_apply_update. revert F. apply fresh_same; reflexivity.
+    + split; [|reflexivity]. revert F. apply fresh_same; reflexivity.
+    + split; [|reflexivity]. revert F. apply fresh_same; reflexivity.
+  - rewrite N.add_0_r. split; [exact F|reflexivity].
+  - rewrite N.add_0_r. split; [exact F|reflexivity].
+  - rewrite N.add_0_r. destruct a; [destruct (s_closed s); split; try exact F; try reflexivity; revert F; apply fresh_same; reflexivity|].
+    destruct (s_closed s); [split; [exact F|reflexivity]|]. cbn [reconnect fst]. split; [revert F; apply fresh_same; reflexivity|reflexivity].
+  - rewrite N.add_0_r. destruct (s_closed s); split; try exact F; reflexivity.
+  - cbn [fst]. split; [|reflexivity]. destruct F as [A (tm & B & C)]. split; [unfold tick; cbn [s_now]; lia|]. exists tm. split; assumption.
+  - rewrite N.add_0_r. cbn [fst quiet_for] in *. destruct (aget n' (tget t' (s_meta s))) as [tm0|] eqn:E0; [|split; [exact F|reflexivity]].
+    split; [|reflexivity]. destruct F as [A (tm & B & C)]. split; [exact A|]. exists tm. split; [|exact C].
+    cbn [s_meta]. rewrite tget_tset. destruct (rtype_eqb t t') eqn:Et; [|exact B]. apply rtype_eqb_eq in Et. subst t'.
+    rewrite aget_aset. destruct (String.eqb_spec n n') as [->|Hne]; [|exact B].
+    rewrite rtype_eqb_refl, String.eqb_refl in Hq. discriminate.
+Qed.
+
+Lemma ticks_cons x h : ticks (x :: h) = (match x with OTick d => d | _ => 0 end + ticks h)%N.
+Proof.
+  unfold ticks. cbn [fold_left].
+  assert (G : forall l a, fold_left (fun acc x => match x with OTick d => acc + d | _ => acc end)%N l a = (a + fold_left (fun acc x => match x with OTick d => acc + d | _ => acc end)%N l 0)%N).
+  { induction l as [|y l IH]; intros a; cbn [fold_left]; [lia|]. rewrite IH. rewrite (IH (match y with OTick d => 0 + d | _ => 0 end)%N). destruct y; lia. }
+  rewrite G. destruct x; lia.
+Qed.
+
+Lemma fresh_run c o t n T0 h : forall s, forallb (quiet_for t n) h = true -> fresh t n T0 s ->
+  fresh t n T0 (fst (run c o s h)) /\ s_now (fst (run c o s h)) = (s_now s + ticks h)%N.
+Proof.
+  induction h as [|x h IH]; intros s Hh F; cbn [run]; [split; [exact F|unfold ticks; cbn; lia]|].
+  cbn [forallb] in Hh. apply andb_true_iff in Hh. destruct Hh as [Hx Hh].
+  destruct (fresh_step c o t n T0 s x Hx F) as [F1 E1]. destruct (step c o s x) as [s1 ot]. cbn [fst] in *.
+  destruct (IH s1 Hh F1) as [F2 E2]. destruct (run c o s1 h) as [s2 ots]. cbn [fst] in *. split; [exact F2|].
+  rewrite E2, E1, ticks_cons. lia.
+Qed.
+
+(** the statement: in a reachable state a lookup of (t, n) hits; then ANYTHING happens except a sweep or the test device
+    that back-dates this very entry, for at most the expiry period of clock time; then a sweep runs: the entry is still
+    cached and still subscribed *)
+Theorem used_within_period_survives c o pre t n mid v :
+  aget n (tget t (s_cache (final c o pre))) = Some v ->
+  aget n (tget t (s_meta (final c o pre))) <> None ->
+  forallb (quiet_for t n) mid = true -> (ticks mid <= expire_ms)%N ->
+  let s := final c o (pre ++ OLookup t n :: mid) in
+  aget n (tget t (s_cache (fst (sweep s)))) = aget n (tget t (s_cache s)) /\
+  smem n (watched_names (fst (sweep s)) t) = smem n (watched_names s t).
+Proof.
+  intros Hc Hm Hq Ht s.
+  assert (Es : s = fst (run c o (fst (fst (lookup (final c o pre) t n))) mid)).
+  { unfold s, final. rewrite run_app. cbn [run step].
+    destruct (lookup (fst (run c o init_state pre)) t n) as [[s1 rq] r]. cbn [fst].
+    destruct (run c o s1 mid) as [s2 ots]. reflexivity. }
+  set (s0 := final c o pre) in *. set (s1 := fst (fst (lookup s0 t n))) in *.
+  assert (F1 : fresh t n (s_now s0) s1).
+  { split.
+    - unfold s1, lookup. assert (Et : s_now (touch s0 t n) = s_now s0) by (unfold touch; destruct (aget n (tget t (s_meta s0))); reflexivity).
+      destruct (aget n (tget t (s_cache (touch s0 t n)))); cbn [fst]; [rewrite Et; lia|].
+      destruct (watch (touch s0 t n) t n false) as [sx rq] eqn:Ew. cbn [fst]. change sx with (fst (sx, rq)). rewrite <- Ew. cbn [watch fst s_now]. rewrite Et. lia.
+    - exists (s_now s0). split; [apply (lookup_refreshes s0 t n v Hc Hm)|lia]. }
+  assert (En1 : s_now s1 = s_now s0).
+  { unfold s1, lookup. assert (Et : s_now (touch s0 t n) = s_now s0) by (unfold touch; destruct (aget n (tget t (s_meta s0))); reflexivity).
+    destruct (aget n (tget t (s_cache (touch s0 t n)))); cbn [fst]; [exact Et|].
+    destruct (watch (touch s0 t n) t n false) as [sx rq] eqn:Ew. cbn [fst]. change sx with (fst (sx, rq)). rewrite <- Ew. exact Et. }
+  destruct (fresh_run c o t n (s_now s0) mid s1 Hq F1) as [[_ (tm & Hg & Hle)] En]. rewrite <- Es in Hg, En.
+  assert (Hnd : meta_nd s) by (unfold s; apply reachable_meta_nd).
+  apply (recently_used_survives s t n tm Hnd Hg). rewrite En, En1. lia.
+Qed.
+
+(** every cached entry has an access record (so that it can expire: repair of D15) *)
+Definition meta_cover (s : state) : Prop := forall t n, amem n (tget t (s_cache s)) = true -> amem n (tget t (s_meta s)) = true.
+
+Lemma fold_meta_covers (nc : list (string * cval)) now : forall (om : list (string * N)) k,
+  amem k nc = true \/ amem k om = true ->
+  amem k (fold_left (fun acc kv => if amem (fst kv) acc then acc else aset (fst kv) now acc) nc om) = true.
+Proof.
+  induction nc as [|[k0 v0] nc IH]; intros om k H; cbn [fold_left fst].
+  - destruct H as [H|H]; [discriminate|exact H].
+  - apply IH. destruct (String.eqb_spec k k0) as [Heq|Hne].
+    + subst k0. right. destruct (amem k om) eqn:E; [exact E|]. unfold amem. rewrite aget_aset_same. reflexivity.
+    + assert (Hk : amem k ((k0, v0) :: nc) = amem k nc).
+      { unfold amem. cbn [aget]. destruct (String.eqb_spec k k0); [congruence|reflexivity]. }
+      rewrite Hk in H. destruct H as [H|H]; [left; exact H|right].
+      destruct (amem k0 om); [exact H|]. unfold amem. rewrite aget_aset_other by exact Hne. exact H.
+Qed.
+
+Lemma cover_same s s' : s_cache s' = s_cache s -> s_meta s' = s_meta s -> meta_cover s -> meta_cover s'.
+Proof. intros E1 E2 H t n. rewrite E1, E2. apply H. Qed.
+
+Lemma cover_touch s t n : meta_cover s -> meta_cover (touch s t n).
+Proof.
+  intros H t' k Hk. unfold amem. rewrite touch_meta_get.
+  assert (Ec : s_cache (touch s t n) = s_cache s) by (unfold touch; destruct (aget n (tget t (s_meta s))); reflexivity).
+  rewrite Ec in Hk. specialize (H t' k Hk). unfold amem in H.
+  destruct (rtype_eqb t' t && String.eqb k n) eqn:E; [|exact H].
+  apply andb_true_iff in E. destruct E as [E1 E2]. apply rtype_eqb_eq in E1. apply String.eqb_eq in E2. subst.
+  destruct (aget n (tget t (s_meta s))); [reflexivity|discriminate].
+Qed.
+
+Lemma cover_lookup s t n : meta_cover s -> meta_cover (fst (fst (lookup s t n))).
+Proof.
+  intros H. unfold lookup. pose proof (cover_touch s t n H) as Ht.
+  destruct (aget n (tget t (s_cache (touch s t n)))); [exact Ht|].
+  destruct (watch (touch s t n) t n false) as [s1 rq] eqn:Ew. cbn [fst]. revert Ht. apply cover_same; change s1 with (fst (s1, rq)); rewrite <- Ew; reflexivity.
+Qed.
+
+Lemma cover_apply_update s t up : meta_cover s -> meta_cover (apply_update s t up).
+Proof.
+  intros H t' k Hk. unfold apply_update in *. cbn [s_cache s_meta] in *. rewrite tget_tset in Hk. rewrite tget_tset.
+  destruct (rtype_eqb t' t) eqn:E; [|apply H; exact Hk]. apply fold_meta_covers. left. exact Hk.
+Qed.
+
+Lemma cover_evict s t n : meta_cover s -> meta_cover (fst (evict_one s t n)).
+Proof.
+  intros H t' k Hk. rewrite evict_one_cache in Hk. rewrite evict_one_meta. rewrite tget_tset in Hk. rewrite tget_tset.
+  destruct (rtype_eqb t' t) eqn:E; [|apply H; exact Hk]. apply rtype_eqb_eq in E. subst t'.
+  unfold amem in Hk. unfold amem. rewrite aget_adel in Hk. rewrite aget_adel. destruct (String.eqb k n); [discriminate|]. apply H. exact Hk.
+Qed.
+
+Lemma cover_step c o s x : meta_cover s -> meta_cover (fst (step c o s x)).
+Proof.
+  intros I. destruct x as [t n|t n|t ns|d| |v nn p| |t|a| |d|t n d| ]; cbn [step].
+  - destruct (watch s t n false) as [s1 rq] eqn:E. cbn [fst]. revert I. apply cover_same; change s1 with (fst (s1, rq)); rewrite <- E; reflexivity.
+  - pose proof (cover_lookup s t n I) as H. destruct (lookup s t n) as [[s1 rq] r]. exact H.
+  - assert (G : forall ns0 s0 rq r, meta_cover s0 ->
+       meta_cover (fst (fst (fold_left (fun acc n => let '(sa, rqa, _) := acc in let '(sb, rqb, rb) := lookup sa t n in (sb, (rqa ++ rqb)%list, rb)) ns0 (s0, rq, r))))).
+    { induction ns0 as [|n ns0 IH]; intros s0 rq r I0; cbn [fold_left]; [exact I0|].
+      pose proof (cover_lookup s0 t n I0) as H. destruct (lookup s0 t n) as [[sb rqb] rb]. apply IH. exact H. }
+    pose proof (G ns s [] LMiss I) as H. destruct (fold_left _ ns (s, [], LMiss)) as [[s1 rq] r]. exact H.
+  - pose proof (cover_lookup s TCl d I) as H1. destruct (lookup s TCl d) as [[s1 rq1] r1]. cbn [fst] in H1.
+    destruct r1 as [[l|r0|cl|e|]| | | | | |r0| ]; try exact H1.
+    destruct (c_inline cl); [exact H1|].
+    pose proof (cover_lookup s1 TEp (c_epname cl) H1) as H2. destruct (lookup s1 TEp (c_epname cl)) as [[s2 rq2] r2]. exact H2.
+  - exact I.
+  - unfold handle_resp. destruct (s_closed s); [exact I|]. destruct (tget (payload_type p) (s_watched s)); [|exact I].
+    destruct (decode_payload o p) as [[res|tb]|]; cbn [fst].
+    + apply cover_apply_update. revert I. apply cover_same; reflexivity.
+    + revert I. apply cover_same; reflexivity.
+    + revert I. apply cover_same; reflexivity.
+  - exact I.
+  - exact I.
+  - destruct a; [destruct (s_closed s); [exact I|revert I; apply cover_same; reflexivity]|].
+    destruct (s_closed s); [exact I|]. cbn [reconnect fst]. revert I. apply cover_same; reflexivity.
+  - destruct (s_closed s); [exact I|revert I; apply cover_same; reflexivity].
+  - revert I. apply cover_same; reflexivity.
+  - cbn [fst]. destruct (aget n (tget t (s_meta s))) eqn:E; [|exact I].
+    intros t' k Hk. cbn [s_cache s_meta] in *. rewrite tget_tset. destruct (rtype_eqb t' t) eqn:Et; [|apply I; exact Hk].
+    apply rtype_eqb_eq in Et. subst t'. unfold amem. rewrite aget_aset. destruct (String.eqb k n); [reflexivity|]. apply (I t k Hk).
+  - assert (H : meta_cover (fst (sweep s))).
+    { rewrite sweep_unfold.
+      assert (G1 : forall t ns acc, meta_cover (fst acc) -> meta_cover (fst (evict_list t ns acc))).
+      { intros t ns. induction ns as [|n ns IH]; intros acc Ia; [exact Ia|]. rewrite evict_list_cons. apply IH. cbn [fst]. apply cover_evict. exact Ia. }
+      assert (G2 : forall ts acc, meta_cover (fst acc) -> meta_cover (fst (fold_left (fun acc t => evict_list t (idle_names (fst acc) t) acc) ts acc))).
+      { induction ts as [|t ts IH]; intros acc Ia; cbn [fold_left]; [exact Ia|]. apply IH. apply G1. exact Ia. }
+      apply G2. exact I. }
+    destruct (sweep s) as [s1 rq]. exact H.
+Qed.
+
+Lemma reachable_cover c o h : meta_cover (final c o h).
+Proof.
+  unfold final. assert (G : forall h0 s, meta_cover s -> meta_cover (fst (run c o s h0))).
+  { induction h0 as [|x h0 IH]; intros s I; cbn [run]; [exact I|].
+    pose proof (cover_step c o s x I) as H. destruct (step c o s x) as [s1 ot]. cbn [fst] in H.
+    specialize (IH s1 H). destruct (run c o s1 h0). exact IH. }
+  apply G. intros t n H. destruct t; discriminate.
+Qed.
+
+Theorem used_within_period_survives' c o pre t n mid v :
+  aget n (tget t (s_cache (final c o pre))) = Some v ->
+  forallb (quiet_for t n) mid = true -> (ticks mid <= expire_ms)%N ->
+  let s := final c o (pre ++ OLookup t n :: mid) in
+  aget n (tget t (s_cache (fst (sweep s)))) = aget n (tget t (s_cache s)) /\
+  smem n (watched_names (fst (sweep s)) t) = smem n (watched_names s t).
+Proof.
+  intros Hc. apply (used_within_period_survives c o pre t n mid v Hc).
+  pose proof (reachable_cover c o pre t n) as H. unfold amem in H. rewrite Hc in H. specialize (H eq_refl).
+  destruct (aget n (tget t (s_meta (final c o pre)))); [discriminate|discriminate].
+Qed.
